@@ -50,7 +50,7 @@ func init() {
 		Rule: "inputs: (1) exhaustive: four overlapping sibling boxes, the second with one nested child, every assignment of {static, relative z-index:auto, relative z-index -1/0/1, float} to the five boxes (6^5 = 7776 documents); " +
 			"(2) ties: 14-24 overlapping positioned siblings (some nested in plain blocks) with z-indexes from two or three values of one sign, so that one z-index class holds more than 12 contexts; " +
 			"(3) flow: 4-9 static blocks / inline-blocks / spans with text, nested up to 4 deep and pulled over each other, all painted by steps 4 and 7 of one context; " +
-			"(4) random trees of 3-10 boxes, nesting <= 3, block / inline-block / inline, static / relative / absolute, z-index from {-2,-1,-1,0,1,1,2} or auto, floats, opacity, translate+scale transforms, overflow:hidden, negative margins and small offsets so that most pairs overlap. " +
+			"(4) random trees of 3-10 boxes, nesting <= 3, block / inline-block / inline, static / relative / absolute, z-index from {-2,-1,-1,0,1,1,2} or auto (also set on 30 % of the non-positioned boxes, where it must be ignored), floats, opacity, translate+scale transforms, overflow:hidden, negative margins and small offsets so that most pairs overlap. " +
 			"Every box has unique opaque background, border, text and outline colours. A case is non-trivial when at least three pairs of layers of different boxes with overlapping painted regions were judged against the Appendix E model; distinct = distinct document.",
 		N: func(tier string) int { return exhaustiveN + nTies(tier) + nFlow(tier) + nRandom(tier) },
 		Gen: func(r *rand.Rand, i int, tier string) any {
@@ -76,22 +76,24 @@ func init() {
 		CounterFloors: func(tier string) map[string]int64 {
 			// about 40 % of what the quick tier observes on the unchanged tree (seed 1)
 			m := map[string]int64{
-				"pairs_judged":          350000,
-				"layer_pairs_judged":    60000,
-				"judged_class_neg":      100000,
-				"judged_class_pos":      100000,
-				"judged_class_zero":     150000,
-				"judged_class_float":    60000,
-				"judged_class_block":    120000,
-				"judged_class_iblock":   20000,
-				"judged_class_inline":   7000,
-				"judged_step7_pairs":    12000,
-				"judged_z_tie":          25000,
-				"scope_opacity_items":   4000,
-				"scope_clip_items":      1500,
-				"scope_transform_items": 3000,
-				"outline_items":         40000,
-				"groups_composited":     500,
+				"pairs_judged":                   350000,
+				"layer_pairs_judged":             60000,
+				"judged_class_neg":               100000,
+				"judged_class_pos":               100000,
+				"judged_class_zero":              150000,
+				"judged_class_float":             60000,
+				"judged_class_block":             120000,
+				"judged_class_iblock":            20000,
+				"judged_class_inline":            7000,
+				"judged_step7_pairs":             12000,
+				"judged_z_tie":                   25000,
+				"scope_opacity_items":            4000,
+				"scope_clip_items":               1500,
+				"scope_transform_items":          3000,
+				"outline_items":                  40000,
+				"groups_composited":              500,
+				"scope_clip_outline_items":       300,
+				"zindex_on_static_context_boxes": 100,
 			}
 			if tier == "thorough" {
 				for k := range m {
@@ -104,7 +106,7 @@ func init() {
 			"the recorder trace is what a backend receives; paint order = order of Paint/DrawText calls with groups expanded where DrawWithOpacity composites them",
 			"Ahem metrics (1em square glyphs) give the text rectangles; fills are rectangles or even-odd rectangle rings because borders/outlines are single-colour solid and there are no radii",
 			"where Appendix E leaves a choice (outlines in step 7 or step 10) or webrender follows WeasyPrint's simplification (overflow:hidden establishes a z-index:0 stacking context) both readings are accepted, but one reading must explain all judged pairs of a document",
-			"transforms are translate+scale only (axis-aligned), z-index is only set on positioned boxes, documents fit one page",
+			"transforms are translate+scale only (axis-aligned), documents fit one page; floats that the layout may defer below their line are neither positioned nor inside positioned / opacity spans (open finding F1)",
 		},
 		Exhaustive: func(tier string) bool { return false },
 		Batch:      250,
@@ -380,6 +382,12 @@ func (j *judge) run() {
 		}
 		if len(wantClips) > 0 {
 			res.Count("scope_clip_items", 1)
+			if it.Key.Layer == LOutline {
+				res.Count("scope_clip_outline_items", 1) // regression of fix b5dd602
+			}
+		}
+		if it.Key.Layer == LBg && n.Z != nil && !n.positioned() && (n.opacity() < 1 || n.Tr != nil || n.Ov) {
+			res.Count("zindex_on_static_context_boxes", 1) // regression of fix e93eca9
 		}
 		if it.Key.Layer == LOutline {
 			res.Count("outline_items", 1)
